@@ -171,11 +171,17 @@ def validEll (tea ted ma mb z ksqinv jonk : F) : Bool :=
   !(Rfc.isSquare X z) && mb != 0 && ksqinv * (mb * mb) == 1 && jonk * mb == ma
     && tea * mb == ma + (1 + 1) && ted * mb == ma - (1 + 1)
 
+/-- `k · P`: the affine definition `swSmul` for short scalars (and then `swSmulJ` must agree with it — second
+    component), the Jacobian evaluation `swSmulJ` for long ones (r, the h_eff of G2) -/
+def smulChecked (a : F) (k : Nat) (P : SwPt F) : SwPt F × Bool :=
+  let j := swSmulJ a k P
+  if k < 2 ^ 70 then let s := swSmul a k P; (s, s = j) else (j, true)
+
 /-- model of `MapToCurveBasedHasher::hash` (SW target): elements → points → sum → cofactor clearing -/
 def modelHashSw (mapM : F → Outcome (SwPt F)) (a : F) (heff : Nat) (us : List (List Nat)) : Outcome (SwPt F) :=
   match us.map C.dec with
   | [some u0, some u1] =>
-    obind (mapM u0) fun q0 => obind (mapM u1) fun q1 => .ok (hashFinishSw a heff q0 q1)
+    obind (mapM u0) fun q0 => obind (mapM u1) fun q1 => .ok (smulChecked a heff (swAdd a q0 q1)).1
   | _ => .panic
 
 /-- the two mapped points of the model (before addition / cofactor clearing) -/
@@ -190,7 +196,7 @@ def hashVerdictSw (a b : F) (r : Nat) (strict : Bool) (spec : Option (SwPt F)) (
   | none => "bad:" ++ impl
   | some P =>
     if !(swOnCurve a b P) then "bad:offcurve"
-    else if r != 0 && swSmul a r P != none then "bad:not-in-subgroup"
+    else if r != 0 && swSmulJ a r P != none then "bad:not-in-subgroup"
     else match spec with
       | none => "bad:rfc-abort"
       | some S =>
@@ -214,7 +220,9 @@ def runHashSw (p m : Nat) (aT bT : List Nat) (heff r : Nat) (a' b' zeta : List N
     | some iso => fun u => Rfc.isoMap iso (Rfc.sswu X a' b' zeta u)
     | none => fun u => some (Rfc.sswu X a' b' zeta u)
   let mpts := obind (hashToField sha 32 p bits m 128 2 dst msg) fun us => modelPts C mapModel us
-  let model := obind mpts fun (q0, q1) => .ok (hashFinishSw a heff q0 q1)
+  let modelC := obind mpts fun (q0, q1) => .ok (smulChecked a heff (swAdd a q0 q1))   -- = hashFinishSw a heff q0 q1
+  let model := obind modelC fun r => .ok r.1
+  let smulOk := match modelC with | .ok r => r.2 | .panic => true
   let spec : Option (SwPt F) := do
     let us ← Rfc.hashToField sha 32 64 p m 128 dst msg 2
     match us.map C.dec with
@@ -222,11 +230,12 @@ def runHashSw (p m : Nat) (aT bT : List Nat) (heff r : Nat) (a' b' zeta : List N
       let s0 := mapSpec u0; let s1 := mapSpec u1
       -- (run-time shortcut only: when the mapped points coincide with the model's, reuse its h_eff multiple)
       match mpts, model with
-      | .ok (q0, q1), .ok P => if q0 = s0 ∧ q1 = s1 then some P else some (Rfc.finishSw a heff s0 s1)
-      | _, _ => some (Rfc.finishSw a heff s0 s1)
+      | .ok (q0, q1), .ok P => if q0 = s0 ∧ q1 = s1 then some P else some (smulChecked a heff (swAdd a s0 s1)).1
+      | _, _ => some (smulChecked a heff (swAdd a s0 s1)).1           -- = Rfc.finishSw a heff s0 s1
     | _ => none
   let strict := Rfc.paramL p 128 == 64
-  some (oStr (swStr C) model ++ (if strict then " @L64" else " @Lother"), hashVerdictSw C a b r strict spec impl)
+  some (oStr (swStr C) model ++ (if strict then " @L64" else " @Lother"),
+        if smulOk then hashVerdictSw C a b r strict spec impl else "bad:driver: swSmulJ ≠ swSmul")
 
 /-- `rfcvec.hash`: the RFC's published vector (u, Q0, Q1, P) against the spec transcription; model output = the model's P -/
 def runRfcVecHash (p m : Nat) (aT : List Nat) (heff : Nat) (a' b' zeta : List Nat)
@@ -247,7 +256,7 @@ def runRfcVecHash (p m : Nat) (aT : List Nat) (heff : Nat) (a' b' zeta : List Na
         let s1 := Rfc.isoMap iso (Rfc.sswu X a' b' zeta u1)
         if s0 != some q0J then "bad:rfc-vector Q0"
         else if s1 != some q1J then "bad:rfc-vector Q1"
-        else if swStr C (Rfc.finishSw a heff s0 s1) != impl then "bad:rfc-vector P"
+        else if swStr C (smulChecked a heff (swAdd a s0 s1)).1 != impl then "bad:rfc-vector P"   -- Rfc.finishSw
         else "ok"
       | _ => "bad:rfc-vector u"
   some (oStr (swStr C) model, v)
